@@ -59,6 +59,14 @@ async def run(
     # Wait for all answers to be here
     await asyncio.gather(*setup_done_events)
 
+    # All simulators share one origin of the real-time clock. It has to
+    # be set before the first process runs: a simulator that completes a
+    # step before the other processes have started advances their
+    # progress as well, which reads their rt_start.
+    rt_start = perf_counter()
+    for sim in world.sims.values():
+        sim.rt_start = rt_start
+
     # Start simulator processes
     processes: List[asyncio.Task[None]] = []
     for sim in world.sims.values():
@@ -95,7 +103,10 @@ async def sim_process(
     Coroutine running the simulator *sim*.
     """
     sim.started = True
-    sim.rt_start = rt_start = perf_counter()
+    if getattr(sim, "rt_start", None) is None:
+        # Not started by run()
+        sim.rt_start = perf_counter()
+    rt_start = sim.rt_start
 
     try:
         advance_progress(sim, world)
